@@ -525,3 +525,17 @@ V("C09-UProd-unscaled", ["C09", "C15"], "factor_analysis", "        UProd = UcT 
 V("C08-axes-wrong", ["C08", "C11"], "linear_scoring", "b = np.transpose(b, axes=(1, 2, 0))", "b = np.transpose(b, axes=(2, 1, 0))", "test-statistics factor transposed to (features, components, items): contraction pairs components with features")
 V("C08-tensordot-1", ["C08", "C11"], "linear_scoring", "return np.tensordot(a, b, 2)", "return np.tensordot(a, b, 1)", "contraction over one axis only")
 V("C08-variance-squared", ["C08", "C15", "C11"], "linear_scoring", "a = (models_means - ubm.means) / ubm.variances", "a = (models_means - ubm.means) / ubm.variances ** 2", "model offset divided by the squared variance")
+
+# ----------------------------------------------------------------------------- survivors of the generic mutation sweep, now rules
+V("S-lwl-data-plus-mean", ["C01"], "gmm", "temp = np.sum((data - machine.means[i]) ** 2 / machine.variances[i], axis=-1)", "temp = np.sum((data + machine.means[i]) ** 2 / machine.variances[i], axis=-1)", "mean added to the sample in the quadratic form (density not centred on the mean)")
+V("S-power-swapped", ["C15", "C03"], "gmm", ") / thresholded_n[:, None] + np.power(machine.means, 2)", ") / thresholded_n[:, None] + np.power(2, machine.means)", "base and exponent exchanged")
+V("S-eq-neq", ["C02", "C18"], "gmm", "self.log_likelihood == other.log_likelihood and self.t == other.t", "self.log_likelihood == other.log_likelihood and self.t != other.t", "__eq__ compares the sample counts with !=")
+V("S-alpha-deleted", ["C05"], "gmm", "    if reynolds_adaptation:\n        alpha = statistics.n / (statistics.n + relevance_factor)\n    elif", "    if reynolds_adaptation:\n        pass\n    elif", "Reynolds coefficient never computed: fixed ratio used")
+V("S-mask-neq", ["C06", "C20"], "kmeans", "first_order_statistics[i] = np.sum(data[closest_k_indices == i], axis=0)", "first_order_statistics[i] = np.sum(data[closest_k_indices != i], axis=0)", "cluster sums over the samples NOT assigned to the cluster")
+V("S-fnx-divided", ["C11", "C07"], "factor_analysis", "fn_x = f - self.ubm.means * n", "fn_x = f - self.ubm.means / n", "UBM mean divided by the counts in the pooled residual")
+V("S-mstep-d-not-stored", ["C09"], "factor_analysis", "        self._D = acc_D_A2 / acc_D_A1\n        return self._D", "        return acc_D_A2 / acc_D_A1", "in-memory D phase never stores D", may_be_undecided=False)
+V("S-finalize-u-zero", ["C09"], "factor_analysis", "        n_classes = len(n_samples_per_class)\n        latent_x = self.compute_latent_x(X=X, y=y, n_classes=n_classes, UProd=UProd, latent_y=latent_y)\n        return latent_x", "        n_classes = len(n_samples_per_class)\n        return latent_x", "finalize_u returns the zero-initialised channel factors")
+V("S-ynew-dropped", ["C04"], "factor_analysis", "                X_new.append(X[class_indices])\n                y_new.append(y[class_indices])", "                X_new.append(X[class_indices])", "per-class labels never collected: zip(X, y) is empty and nothing is trained")
+V("S-scatter-subtracted", ["C14"], "wccn", "            Sw += X_l_mu_l.T @ X_l_mu_l", "            Sw -= X_l_mu_l.T @ X_l_mu_l", "per-class scatter subtracted")
+V("S-sigma-times-n", ["C10", "C13"], "ivector", "machine.sigma = (stats.snormij - fnorm_sigma_wij_tt) / stats.nij[:, None]", "machine.sigma = (stats.snormij - fnorm_sigma_wij_tt) * stats.nij[:, None]", "covariance update multiplied by the counts")
+V("S-acc-divided", ["C10"], "ivector", "stats.nij_sigma_wij2 = stats.nij_sigma_wij2 + Nij[:, None, None] * sigma_w_ij2[None, :, :]", "stats.nij_sigma_wij2 = stats.nij_sigma_wij2 + Nij[:, None, None] / sigma_w_ij2[None, :, :]", "N / E[ww'] accumulated", kind="skip")
